@@ -45,6 +45,7 @@ class BuzzGen:
         self.n = 0
         self.features = set()
         self.ain: List[int] = []
+        self.ain_loop: List[int] = []
 
     def arg(self, value, depth: int) -> str:
         """Render a numeric value as literal, variable or potentiometer-derived run-time expression."""
@@ -60,7 +61,7 @@ class BuzzGen:
             self.lines.append(f"{ind}{name} = {value!r}")
         else:
             reading = r.randint(0, 1023)
-            self.ain.append(reading)
+            (self.ain_loop if depth else self.ain).append(reading)
             self.lines.append(f"{ind}{name} = pot.read() + {int(value) - reading}")
         return name
 
@@ -160,7 +161,7 @@ class BuzzGen:
             "pin": pin,
             "default": 440.0 if default is None else default,
             "calls": calls,
-            "ain": list(self.ain),
+            "ain": list(self.ain) + list(self.ain_loop) * max(1, passes),
             "passes": passes,
             "features": sorted(self.features),
         }
@@ -264,9 +265,7 @@ class E5Buzzer(Engine):
             idx = si if si < n_setup else n_setup + (si - n_setup) % max(1, n_loop)
             call = calls[idx]
             second_pass = si >= n_setup + n_loop
-            if second_pass and pot_used_in_loop:
-                # run-time arguments derived from the potentiometer differ on later passes: only the generic rules apply
-                call = dict(call, generic_only=True)
+            _ = (second_pass, pot_used_in_loop)  # the world repeats the loop's ADC readings on every pass
             tones = [(k, r) for k, r in evs if k in ("TONE", "NOTONE")]
             delays = [int(r) for k, r in evs if k == "DLY"]
             sers = [r for k, r in evs if k == "SER"]
